@@ -664,12 +664,15 @@ func (f *lambdaCallable) wrapVariadicArgs(argv []reflect.Value) []reflect.Value 
 	}
 
 	n := len(argv) - paramCount + 1
-	vars := reflect.MakeSlice(typeInterfaceSlice, n, n)
+	vars := reflect.MakeSlice(typeInterfaceSlice, 0, n)
 
 	for i := 0; i < n; i++ {
-		// Undefined arguments are left as nil.
+		// An array has no place for 'no value': as in an
+		// array constructor, undefined arguments are left
+		// out (a nil in their place would be a null that
+		// is neither in the program nor in its input).
 		if arg := argv[paramCount-1+i]; arg.IsValid() {
-			vars.Index(i).Set(arg)
+			vars = reflect.Append(vars, arg)
 		}
 	}
 
